@@ -111,6 +111,30 @@ def front_insertion_order(ids_prev):
         out.insert(at, i)
     return out
 
+def add_to_defs_order(seq):
+    """the defs order _add_to_defs builds when the ids arrive in this sequence"""
+    out = []
+    for i in seq:
+        at = 0
+        for k, j in enumerate(out):
+            if i < j: at = k; break
+        out.insert(at, i)
+    return out
+
+def reachable_by_add_to_defs(order, doc):
+    """could `order` (the defs of a first pass) have been built by _add_to_defs alone, from the source's gradients and the
+    copies in `order` arriving in SOME sequence (gradients that end up unused are inserted too and removed afterwards)?
+    The recorded defect explains an unstable order only when it was built that way."""
+    import itertools
+    try: src = [e.get('id') for e in etree.fromstring(doc.encode()).iter('{http://www.w3.org/2000/svg}linearGradient', '{http://www.w3.org/2000/svg}radialGradient') if e.get('id')]
+    except Exception: src = []
+    cand = list(dict.fromkeys(list(order) + src))
+    if len(cand) > 8: return True          # too many to enumerate: give the recorded mechanism the benefit of the doubt
+    keep = set(order)
+    for perm in itertools.permutations(cand):
+        if [i for i in add_to_defs_order(perm) if i in keep] == list(order): return True
+    return False
+
 def judge(doc, nd):
     try: out1 = SVG.fromstring(doc).topicosvg(ndigits=nd).tostring()
     except Exception: return None
@@ -145,7 +169,7 @@ def search(ctx, broken, disagreements):
         if v:
             item = {'law': v[0], 'input': {'doc': doc, 'ndigits': nd}, 'expected_by_spec': jsonable(v[1]), 'observed': jsonable(v[2])}
             # keep at most one instance of the defs-order finding so that other violations are not crowded out
-            if isinstance(v[2], dict) and v[2].get('only_defs_order') and v[2].get('defs_ids') == front_insertion_order(v[1].get('defs_ids') or []):
+            if matches_known(item, {'signature': {'pattern': 'defs_order_only'}}):
                 known_hits += 1
                 if known_hits > 1: continue
             found.append(item)
@@ -157,8 +181,13 @@ def matches_known(v, entry):
     if sig.get('pattern') == 'defs_order_only':
         # only the recorded mechanism: every other byte identical AND the new order is exactly what front insertion predicts
         o, e = v.get('observed'), v.get('expected_by_spec')
-        return bool(isinstance(o, dict) and isinstance(e, dict) and o.get('only_defs_order')
-                    and o.get('defs_ids') == front_insertion_order(e.get('defs_ids') or []))
+        if not (isinstance(o, dict) and isinstance(e, dict) and o.get('only_defs_order')
+                and o.get('defs_ids') == front_insertion_order(e.get('defs_ids') or [])): return False
+        # ... AND the order it started from is one _add_to_defs itself can have produced from the source (pass 1 -> 2 only;
+        # a later pass always starts from such an order)
+        if str(v.get('law', '')).startswith('pass 2'):
+            return reachable_by_add_to_defs(e.get('defs_ids') or [], (v.get('input') or {}).get('doc', ''))
+        return True
     return False
 
 def replay(ctx, w):
